@@ -5,49 +5,6 @@ From RRE Require Import Base.Sx Base.Float Base.Num Model.ExprShape Model.Forwar
 From Coq Require Import Lia.
 Open Scope Z_scope.
 
-Notation ws := ws_unicode.
-
-(** ---------- character classes ---------- *)
-Definition plain (c : Z) : bool :=
-  negb (ws c) && negb (is_arith c) && negb (c =? 40) && negb (c =? 41) && negb (c =? 34) && negb (c =? 39).
-
-Definition is_addop (op : Z) : bool := (op =? 43) || (op =? 45).
-Definition is_mulop (op : Z) : bool := (op =? 42) || (op =? 47) || (op =? 37).
-
-(** an atom's text: plain characters; or a minus sign followed by plain characters; or a quoted string
-    without its own quote character inside *)
-Definition atom_text_ok (t : str) : bool :=
-  match t with
-  | [] => false
-  | c :: r => forallb plain t
-              || ((c =? 45) && match r with [] => false | _ => forallb plain r end)
-              || (((c =? 34) || (c =? 39)) && match rev r with d :: m => (d =? c) && negb (memc c m) | [] => false end)
-  end.
-
-Definition top_add (e : aexp) : bool := match e with ABin op _ _ => is_addop op | _ => false end.
-Definition is_bin (e : aexp) : bool := match e with ABin _ _ _ => true | _ => false end.
-
-(** trees whose printed text parses back to themselves: the right operand of + - has no top-level + -,
-    the left operand of * / % has none either and its right operand is an atom or parenthesised *)
-Fixpoint wf (e : aexp) : bool :=
-  match e with
-  | ALit l => atom_text_ok (pr_lit l)
-  | AField p => atom_text_ok (join_dot p)
-  | APar a => wf a
-  | ABin op a b => wf a && wf b && (if is_addop op then negb (top_add b) else is_mulop op && negb (top_add a) && negb (is_bin b))
-  end.
-
-(** the tree-level evaluator: leaves as the code reads them, operators by apply_operator *)
-Fixpoint meval (f : facts) (e : aexp) : eres :=
-  match e with
-  | ALit l => eleaf f (pr_lit l)
-  | AField p => eleaf f (join_dot p)
-  | APar a => meval f a
-  | ABin op a b => match meval f a with
-                   | EOk x => match meval f b with EOk y => apply_operator x op y | r => r end
-                   | r => r end
-  end.
-
 (** ---------- scanning lemmas for find_operator ---------- *)
 Definition ops_arith (ops : list Z) : Prop := forall c, memc c ops = true -> is_arith c = true.
 Definition prev_ok (prev : option Z) : bool := match prev with None => true | Some p => is_arith p end.
